@@ -73,15 +73,16 @@ type BaseStore struct {
 	messageMarshaler iface.MessageMarshaler
 	directChannel    iface.DirectChannel
 
-	muCache   sync.RWMutex
-	muIndex   sync.RWMutex
-	muJoining sync.Mutex
-	sortFn    ipfslog.SortFn
-	logger    *zap.Logger
-	tracer    trace.Tracer
-	ctx       context.Context
-	cancel    context.CancelFunc
-	closeFunc func()
+	muCache      sync.RWMutex
+	muIndex      sync.RWMutex
+	muJoining    sync.Mutex
+	muLocalHeads sync.Mutex
+	sortFn       ipfslog.SortFn
+	logger       *zap.Logger
+	tracer       trace.Tracer
+	ctx          context.Context
+	cancel       context.CancelFunc
+	closeFunc    func()
 
 	// Deprecated: if possible don't use this, use EventBus() directly instead
 	events.EventEmitter
@@ -883,12 +884,18 @@ func (b *BaseStore) AddOperation(ctx context.Context, op operation.Operation, on
 
 	b.recalculateReplicationStatus(e.GetClock().GetTime())
 
-	marshaledEntry, err := json.Marshal([]ipfslog.Entry{e})
+	// concurrent writers append under the log's lock but get here in any order: persist
+	// the log's current heads, one writer at a time, so that the one who comes last cannot
+	// put an older entry back as the only cached local head
+	b.muLocalHeads.Lock()
+	marshaledEntry, err := json.Marshal(oplog.Heads().Slice())
 	if err != nil {
+		b.muLocalHeads.Unlock()
 		return nil, fmt.Errorf("unable to marshal entry: %w", err)
 	}
 
 	err = b.Cache().Put(ctx, datastore.NewKey("_localHeads"), marshaledEntry)
+	b.muLocalHeads.Unlock()
 	if err != nil {
 		return nil, fmt.Errorf("unable to add data to cache: %w", err)
 	}
